@@ -23,3 +23,21 @@ func DebugAppends(r *Run, rel, name string) {
 		}
 	}
 }
+
+// DebugPaths prints the path facts of every entry→return path.
+func DebugPaths(r *Run, rel, name string) {
+	f := r.P.Func(rel, name)
+	ff := r.E.Facts(f, core.Ctx{})
+	paths, _ := enumPaths(ff, 200)
+	for i, p := range paths {
+		ret := p[len(p)-1].Instrs[len(p[len(p)-1].Instrs)-1].(*ssa.Return)
+		fmt.Printf("path %d -> return at %s\n", i, r.P.Pos(ret.Pos()))
+		for _, fc := range pathFacts(ff, p).Sorted() {
+			k := fc.Key()
+			if len(k) > 220 {
+				k = k[:220]
+			}
+			fmt.Println("    ", k)
+		}
+	}
+}
